@@ -293,11 +293,16 @@ func lookup(ctx context.Context, ds *replication.Datasource, kind int, t time.Ti
 }
 
 // runSearchAfter: with warm != nil the same Datasource (and http.Client) first
+// bodyChunks: the response bodies arrive in one piece, byte by byte, and in pieces of 7 and
+// 19 bytes in turn (by request number) - a state file is small, yet nothing says that the
+// network hands it over in one Read.
+var bodyChunks = []int{0, 1, 7, 19}
+
 // looks up warmT in the directory warm (what the server had published so far);
 // its outcome is not judged, its requests are not counted.
 func runSearchAfter(via string, warm *dir, warmT time.Time, dJudged *dir, t time.Time, budget, faultAt, faultKind int) result {
 	var res result
-	tr := &fakehttp.Transport{Budget: budget}
+	tr := &fakehttp.Transport{Budget: budget, BodyChunks: bodyChunks}
 	d := dJudged
 	ctx, cancel := context.WithCancel(context.Background())
 	defer cancel()
@@ -355,7 +360,7 @@ func runSearchOn(ctx context.Context, ds *replication.Datasource, sw *switchRT, 
 	serve func(*dir, int, *http.Request, *result) (fakehttp.Response, bool),
 	warm *dir, warmT time.Time, d *dir, t time.Time, budget int, res *result) {
 	if warm != nil {
-		wtr := &fakehttp.Transport{Budget: budget}
+		wtr := &fakehttp.Transport{Budget: budget, BodyChunks: bodyChunks}
 		var wres result
 		wtr.Handler = func(n int, req *http.Request) (fakehttp.Response, bool) { return serve(warm, n, req, &wres) }
 		sw.cur = wtr
